@@ -17,6 +17,7 @@ import (
 	"os/exec"
 	"path/filepath"
 	"strings"
+	"sync"
 	"sync/atomic"
 	"syscall"
 	"time"
@@ -36,12 +37,17 @@ type ports struct{ ingress, pull, admin, stub int }
 
 var portSlot atomic.Int64
 
+// forkMu keeps port probing and process creation apart: a child between fork and exec still holds a copy of every
+// descriptor of this process, so a probe listener closed here would stay bound for a moment ("address already in use").
+var forkMu sync.RWMutex
+
 // freePorts hands out four ports from a range private to this process and call (parallel runs must not race for
 // ports: a port that is probed free and then taken by another run would make an instance fail to start).
 func freePorts() (ports, error) {
 	for tries := 0; tries < 200; tries++ {
 		slot := portSlot.Add(1)
-		base := 12000 + (os.Getpid()%300)*160 + int(slot%40)*4
+		forkMu.Lock()
+		base := 12000 + (os.Getpid()%120)*160 + int(slot%40)*4 // below the ephemeral range (32768..)
 		ok := true
 		var ls []net.Listener
 		for i := 0; i < 4; i++ {
@@ -55,6 +61,7 @@ func freePorts() (ports, error) {
 		for _, l := range ls {
 			l.Close()
 		}
+		forkMu.Unlock()
 		if ok {
 			return ports{base, base + 1, base + 2, base + 3}, nil
 		}
@@ -143,7 +150,10 @@ func (r *Run) start(crash string) error {
 	}
 	logf, _ := os.OpenFile(filepath.Join(r.Dir, "run.log"), os.O_CREATE|os.O_WRONLY|os.O_APPEND, 0o644)
 	cmd.Stdout, cmd.Stderr = logf, logf
-	if err := cmd.Start(); err != nil {
+	forkMu.RLock()
+	err := cmd.Start()
+	forkMu.RUnlock()
+	if err != nil {
 		return err
 	}
 	r.cmd = cmd
